@@ -78,7 +78,8 @@ Proof. exact file_roundtrip_instance. Qed.
     acceptable in the state it is issued in ([acceptable_calls]: the state of the machine after
     the calls before it), every call returns Ok (CrOk / CrBlob) and the flush of [Drop] succeeds.
     [acceptable_call st c] = [representable_call st c] (the documented rules, as in C10: the
-    prototype rules, no duplicate names, integer minimum <= maximum, extension names and URLs
+    prototype rules, no duplicate names, integer minimum <= maximum, float limits that are numbers
+    with minimum <= maximum, extension names and URLs
     well-formed / registered / distinct, values of the prototype's type, arity and range,
     writers not finalized, custom limits complete, an image has a representation when
     finalized) AND the two conditions the documentation does not state:
